@@ -8,6 +8,7 @@ import Infretis.Lemmas.TemplateCp2kMany
 import Infretis.Lemmas.TemplateCp2kWitness
 import Infretis.Lemmas.TemplateCp2kRoundTrip
 import Infretis.Lemmas.CodecFixed
+import Infretis.Lemmas.CodecUni
 import Infretis.Lemmas.CodecLmp
 import Infretis.Lemmas.CodecBox
 import Infretis.Lemmas.CodecBoxData
@@ -18,7 +19,9 @@ Property theorems only.  Models:
 * `Infretis/Model/Template.lean` — `_modify_input`, `_read_input_settings`, `write_for_run` (the code after the
   repairs eaf64e1 / f746fff / 48a6c1e; the `…AsIs` and `…Sub` definitions are the code before them, kept as record)
 * `Infretis/Model/TemplateCp2k.lean` — the CP2K section-tree editor (`update_cp2k_input` and friends)
-* `Infretis/Model/Codec.lean` — decimal fixed point, `.g96` and extended-xyz readers/writers
+* `Infretis/Model/Codec.lean` — decimal fixed point, `.g96` and extended-xyz readers/writers (ASCII white space)
+* `Infretis/Model/CodecUni.lean` — the same readers with Python's complete white-space set (`str.isspace`, 29 code
+  points); the reader theorems of section 4 are about these
 * `Infretis/Model/CodecLmp.lean` — `.lammpstrj` (numbers as opaque numpy tokens) and the TRR byte layout
 The proofs live in `Infretis/Lemmas/{Template,TemplateSubst,TemplateCp2k,CodecFixed,CodecLmp}.lean`;
 sections 3–5 restate the property theorems proved there.
@@ -136,6 +139,18 @@ theorem mdp_asIs_edit_idempotent_counterexample :
       modifyInputAsIs s (modifyInputAsIs s t) ≠ modifyInputAsIs s t :=
   ⟨[("c".toList, "3".toList)], "a = 1\nb = 2".toList,
    ⟨by decide, by decide, by decide, by decide, by decide⟩, by decide⟩
+
+/-- PENDING finding C19:mdp:dash-underscore-key (reported, not decided): the editor compares parameter names
+    literally.  GROMACS reads `-` and `_` in a parameter name alike (and the engine itself requests `gen_vel` next to
+    `ref-t`): on a template that spells the parameter `gen-vel` the requested `gen_vel` is not edited but appended — the
+    output defines the parameter twice and the template's entry keeps its old value.  (The edit is idempotent.) -/
+theorem mdp_dash_underscore_counterexample :
+    modifyInput [("gen_vel".toList, "no".toList)] "gen-vel = yes\nnsteps = 5\n".toList
+      = "gen-vel = yes\nnsteps = 5\ngen_vel = no\n".toList ∧
+    readSettings "gen-vel = yes\nnsteps = 5\ngen_vel = no\n".toList
+      = [("gen-vel".toList, "yes".toList), ("nsteps".toList, "5".toList), ("gen_vel".toList, "no".toList)] ∧
+    modifyInput [("gen_vel".toList, "no".toList)] "gen-vel = yes\nnsteps = 5\ngen_vel = no\n".toList
+      = "gen-vel = yes\nnsteps = 5\ngen_vel = no\n".toList := by decide
 
 /-! ## 2. LAMMPS `write_for_run`
 
@@ -687,6 +702,59 @@ theorem cp2k_duplicate_children_counterexample :
 
 example : dget updMerge.target stMD.ref = some 1 ∧ stMD.arena[1]?.isSome = true ∧ updMerge.isList = false := by decide
 
+/-! ### white space and case (audit of 2026-09-30)
+
+`isWs` of `Model/TemplateCp2k.lean` is Python's complete `str.isspace` now (it was the ASCII subset): `IsTok`, `DataOk`,
+`tokOk`, `dataOk` and with them the guards of `cp2k_edit_idempotent…`, `cp2k_edit_many_idempotent` and
+`cp2k_print_read_roundtrip` speak about all 29 white-space code points; `Tree.ok` additionally asks for ASCII section
+titles (`asciiStr`: Python's `str.upper()` beyond ASCII is outside the model).  The two records below are the inputs
+on which the former (ASCII) guards held and the real code — and the model as it is now — break the conclusion. -/
+
+/-- the data-line guard as it was before the audit: first and last character no ASCII white space -/
+def dataOkAscii (l : Str) : Bool :=
+  match l with
+  | [] => false
+  | c :: _ => !isWsAscii c && c != '&' && (match l.getLast? with | some z => !isWsAscii z | none => false) &&
+              l.all (fun x => x != '\n' && x != '\r')
+
+/-- RECORD: `cp2k_print_read_roundtrip` under its former ASCII guard was false of the code: the data line
+    `STEPS 10<U+00A0>` passed the guard, but `str.strip()` removes the no-break space, so print ∘ parse ∘ print ≠ print.
+    The guard as it is now (`okTs`) rejects the forest. -/
+theorem cp2k_roundtrip_ascii_guard_counterexample :
+    dataOkAscii "STEPS 10\u00a0".toList = true ∧
+    okTs [Tree.node "MD".toList [] ["STEPS 10\u00a0".toList] []] = false ∧
+    Infretis.Cp2k.unlines (printForest [Tree.node "MD".toList [] ["STEPS 10\u00a0".toList] []]) = "&MD\n  STEPS 10\u00a0\n&END MD\n".toList ∧
+    (readText "&MD\n  STEPS 10\u00a0\n&END MD\n".toList).map (fun rs => printText rs.toSt) = .ok "&MD\n  STEPS 10\n&END MD\n".toList := by
+  decide +kernel
+
+/-- RECORD: `cp2k_edit_idempotent` under its former guard (keys free of ASCII white space) was false of the code: the
+    key `A<U+00A0>B` is two words for `line.split()[0]`, is never found again and is appended on every application.
+    `DataOk` as it is now rejects the key. -/
+theorem cp2k_idempotent_ascii_guard_counterexample :
+    (∀ c ∈ "A\u00a0B".toList, isWsAscii c = false) ∧ ¬ DataOk [("A\u00a0B".toList, some "1".toList)] ∧
+    updateInput tplMD [⟨"MOTION->MD".toList, none, false, [("A\u00a0B".toList, some "1".toList)], false⟩] [] =
+      .ok "&MOTION\n  &MD\n    STEPS 10\n    A\u00a0B 1\n  &END MD\n&END MOTION\n".toList ∧
+    updateInput "&MOTION\n  &MD\n    STEPS 10\n    A\u00a0B 1\n  &END MD\n&END MOTION\n".toList
+        [⟨"MOTION->MD".toList, none, false, [("A\u00a0B".toList, some "1".toList)], false⟩] [] =
+      .ok "&MOTION\n  &MD\n    STEPS 10\n    A\u00a0B 1\n    A\u00a0B 1\n  &END MD\n&END MOTION\n".toList := by
+  refine ⟨by decide, ?_, by decide +kernel, by decide +kernel⟩
+  intro h
+  have := h.tok ("A\u00a0B".toList, some "1".toList) (by simp)
+  exact absurd (this.2 '\u00a0' (by decide)) (by decide)
+
+/-- PENDING finding C19:cp2k:keyword-case (reported, not decided): `update_node` compares keywords literally
+    (`line.split()[0] in data`), CP2K reads keywords case-insensitively (and the reader itself upper-cases section
+    names).  On a template that spells the keyword `steps` the requested `STEPS 21` is not written over the entry but
+    appended: the section then holds `steps 3` AND `STEPS 21`.  (The edit is idempotent.) -/
+theorem cp2k_keyword_case_counterexample :
+    updateInput "&MOTION\n  &MD\n    steps 3\n  &END MD\n&END MOTION\n".toList
+        [⟨"MOTION->MD".toList, none, false, [("STEPS".toList, some "21".toList)], false⟩] [] =
+      .ok "&MOTION\n  &MD\n    steps 3\n    STEPS 21\n  &END MD\n&END MOTION\n".toList ∧
+    updateInput "&MOTION\n  &MD\n    steps 3\n    STEPS 21\n  &END MD\n&END MOTION\n".toList
+        [⟨"MOTION->MD".toList, none, false, [("STEPS".toList, some "21".toList)], false⟩] [] =
+      .ok "&MOTION\n  &MD\n    steps 3\n    STEPS 21\n  &END MD\n&END MOTION\n".toList := by
+  constructor <;> decide +kernel
+
 /-! ### the whole update loop of `update_cp2k_input`, and `write_for_run_vel`
 
 `applyUpdates us st` is the loop `for target, value in update.items(): update_node(...)` on the state `st`
@@ -749,9 +817,10 @@ theorem cp2k_wfrvel_entries_ok (name timestep posfile : Str) (nsteps subcycles :
 
 /-- **print / read round trip over section forests** (the structural induction the tie used to carry alone):
     parse ∘ print = id and print ∘ parse ∘ print = print.  For EVERY forest of `Tree.ok` trees — any number of root
-    sections, any depth, any number of children, parameters and data lines; `ok`: the title is one upper-case token
+    sections, any depth, any number of children, parameters and data lines; `ok`: the title is one upper-case ASCII token
     not starting with "END", parameters are tokens, data lines are stripped, non-empty, without line breaks and do not
-    start with '&' (the trees the reader builds from every text without a malformed `& END…` header; the tie checks this
+    start with '&' (token / stripped: with respect to Python's complete white-space set; the trees the reader builds
+    from every text without a malformed `& END…` header and without non-ASCII section names; the tie checks this
     on every text it reads, op `cp2kspec`) —
     the text `dfs_print` writes is read back into a state whose forest is the same forest, children in the same
     order, and printing that state gives the same text again. -/
@@ -786,9 +855,21 @@ end Cp2k
 /-! ## 4. decimal fixed-point text codecs: `.g96` and extended xyz
 
 A number is a sign-magnitude decimal `Dec` (Python floats have a signed zero and
-`-1 * vel` produces `-0.0`, printed `-0.000000000`), so the statements are exact to the byte. -/
+`-1 * vel` produces `-0.0`, printed `-0.000000000`), so the statements are exact to the byte.
+
+White space (audit of 2026-09-30).  The readers are `readXyzFramesU`, `readConfigurationU`, `extractFrameU`,
+`reverseXyzU`, `readG96U`, `reverseG96U` of `Model/CodecUni.lean`: the real readers with Python's COMPLETE white-space
+set (`str.split()`, `str.strip()`, `float()` of a `str` read as utf-8: 29 code points).  The shared `Model/Codec.lean`
+knows the ten ASCII ones only; the reader theorems used to be stated about it and were FALSE of the code on part of
+their stated domain — an atom name / title line with a non-ASCII white-space character satisfied the old guards
+(`XyzOk`, `G96Ok`) and does not survive the real reader (`xyz_roundtrip_nonascii_space_name_counterexample`,
+`g96_roundtrip_nonascii_space_title_counterexample`).  Each theorem now carries the exact extra guard `Plain`
+(= none of the 19 non-ASCII white-space characters) on the strings the file keeps verbatim; the old statements are
+kept as comments.  `Lemmas/CodecUni.lean` proves that on such texts the complete readers coincide with the ASCII ones
+and that the writers' images are such texts. -/
 section Codec
 open Infretis.Codec
+open Infretis.CodecUni
 
 /-- reading back a `'{:width.prec f}'` field gives exactly the decimal written — any width,
     any magnitude (also when the field overflows), both zeros -/
@@ -807,17 +888,61 @@ example : parseFixed 9 (fmtFixed 15 9 ⟨true, 0⟩) = some ⟨true, 0⟩ ∧
     (24-character labels, every position/velocity component fits its 15 columns, box components
     after the first keep a leading blank, one raw BOX line, 3 or 9 box components) -/
 theorem g96_read_write_roundtrip (raw : G96Raw) (xyz vel : List V3) (box : List Dec)
-    (h : G96Ok raw xyz vel box) :
+    (h : G96Ok raw xyz vel box) (hp : G96Plain raw) :
     ∃ t, writeG96 raw xyz (some vel) (some box) = .ok t ∧
-      readG96 t = .ok ⟨rawAfter raw box, xyz, vel, some box⟩ :=
-  Infretis.Codec.g96_read_write_roundtrip raw xyz vel box h
+      readG96U t = .ok ⟨rawAfter raw box, xyz, vel, some box⟩ :=
+  Infretis.CodecUni.g96_read_write_roundtrip_uni raw xyz vel box h hp
+/- OLD STATEMENT (true of the ASCII reader `Codec.readG96`, false of the code without `G96Plain`):
+     (h : G96Ok raw xyz vel box) : ∃ t, writeG96 … = .ok t ∧ readG96 t = .ok ⟨rawAfter raw box, xyz, vel, some box⟩
+   kept as `Infretis.Codec.g96_read_write_roundtrip` in Lemmas/CodecFixed.lean. -/
+
+/-- the guard `G96Plain` is needed: the title line `<U+00A0>END` passes `G96Ok` (the ASCII `strip` leaves it alone), the
+    real reader strips the no-break space, takes the line for an `END` marker and drops it — the title is lost -/
+theorem g96_roundtrip_nonascii_space_title_counterexample :
+    ∃ (raw : G96Raw) (xyz vel : List V3) (box : List Dec) (t : Text), G96Ok raw xyz vel box ∧
+      raw.title = [['\u00a0', 'E', 'N', 'D']] ∧ writeG96 raw xyz (some vel) (some box) = .ok t ∧
+      (readG96U t).map (·.raw.title) = .ok [] ∧ (readG96 t).map (·.raw.title) = .ok raw.title := by
+  refine ⟨⟨[['\u00a0', 'E', 'N', 'D']], ["    1 SOL      OW      1".toList], ["    1 SOL      OW      1".toList], [['x']], [], []⟩,
+    [⟨⟨false, 1000000000⟩, ⟨false, 2000000000⟩, ⟨false, 3000000000⟩⟩], [⟨⟨true, 5⟩, ⟨false, 0⟩, ⟨false, 7⟩⟩],
+    [⟨false, 1000000000⟩, ⟨false, 1000000000⟩, ⟨false, 1000000000⟩], _, ?_, rfl, rfl, by decide +kernel, by decide +kernel⟩
+  refine ⟨?_, ?_, ?_, rfl, rfl, rfl, ?_, ?_, ⟨_, rfl⟩, Or.inl rfl, ?_⟩
+  · intro t ht
+    simp only [List.mem_singleton] at ht
+    subst ht
+    exact ⟨by intro c hc; revert c; decide, by decide +kernel, ⟨by decide +kernel, by decide +kernel⟩⟩
+  · intro t ht
+    simp only [List.mem_singleton] at ht
+    subst ht
+    exact ⟨by decide, by intro c hc; revert c; decide⟩
+  · intro t ht
+    simp only [List.mem_singleton] at ht
+    subst ht
+    exact ⟨by decide, by intro c hc; revert c; decide⟩
+  · intro v hv
+    simp only [List.mem_singleton] at hv
+    subst hv
+    exact ⟨Infretis.Codec.fit_of_lt _ (fun _ => by decide) (fun h => by cases h),
+           Infretis.Codec.fit_of_lt _ (fun _ => by decide) (fun h => by cases h),
+           Infretis.Codec.fit_of_lt _ (fun _ => by decide) (fun h => by cases h)⟩
+  · intro v hv
+    simp only [List.mem_singleton] at hv
+    subst hv
+    exact ⟨Infretis.Codec.fit_of_lt _ (fun h => by cases h) (fun _ => by decide),
+           Infretis.Codec.fit_of_lt _ (fun _ => by decide) (fun h => by cases h),
+           Infretis.Codec.fit_of_lt _ (fun _ => by decide) (fun h => by cases h)⟩
+  · intro d hd
+    simp only [List.tail_cons, List.mem_cons, List.not_mem_nil, or_false] at hd
+    rcases hd with rfl | rfl <;>
+      exact Infretis.Codec.fitBox_of_lt _ (fun _ => by decide) (fun h => by cases h)
 
 /-- `|x| < 10^5` (non-negative) / `|x| < 10^4` (negative) fits a 15-column field -/
 theorem g96_fit_of_lt (d : Dec) (hp : d.neg = false → d.mag < 10 ^ 14) (hn : d.neg = true → d.mag < 10 ^ 13) :
     Fit d :=
   Infretis.Codec.fit_of_lt d hp hn
 
-example : G96Ok exRaw exXyz exVel exBox := Infretis.Codec.exG96_ok
+example : G96Ok exRaw exXyz exVel exBox ∧ G96Plain exRaw :=
+  ⟨Infretis.Codec.exG96_ok, by
+    refine ⟨?_, ?_, ?_⟩ <;> (intro t ht; intro c hc; revert c; revert t; decide +kernel)⟩
 
 /-- the widest numbers that still fit a 15-column field: 99999.999999999 and -9999.999999999 -/
 example : Fit ⟨false, 99999999999999⟩ ∧ Fit ⟨true, 9999999999999⟩ :=
@@ -834,17 +959,36 @@ theorem g96_roundtrip_wide_box_counterexample :
 /-- **read_write_roundtrip (xyz)** for any atom count ≥ 1, any ordering, non-empty white-space
     free names, arbitrary 9-decimal numbers (no width guard: the reader splits on white space)
     and an arbitrary or absent 4-decimal box -/
-theorem xyz_read_write_roundtrip (c : Conf) (h : XyzOk c) (t : Text)
+theorem xyz_read_write_roundtrip (c : Conf) (h : XyzOk c) (hn : ∀ nm ∈ c.names, Plain nm) (t : Text)
     (hw : writeXyz (some c.names) c.pos c.vel c.box none = .ok t) :
-    readXyzFrames t = ([snapOf c], none) ∧ convertSnapshot (snapOf c) = .ok c ∧
-      readConfiguration t = .ok c :=
-  Infretis.Codec.xyz_read_write_roundtrip c h t hw
+    readXyzFramesU t = ([snapOf c], none) ∧ convertSnapshot (snapOf c) = .ok c ∧
+      readConfigurationU t = .ok c :=
+  ⟨(Infretis.CodecUni.xyz_read_write_roundtrip_uni c h hn t hw).1, (Infretis.Codec.xyz_read_write_roundtrip c h t hw).2.1,
+   (Infretis.CodecUni.xyz_read_write_roundtrip_uni c h hn t hw).2⟩
+/- OLD STATEMENT (true of the ASCII reader, false of the code without `hn`: `XyzOk` only excludes ASCII white space from
+   the names):  (h : XyzOk c) … : readXyzFrames t = ([snapOf c], none) ∧ … ∧ readConfiguration t = .ok c
+   kept as `Infretis.Codec.xyz_read_write_roundtrip` in Lemmas/CodecFixed.lean. -/
+
+/-- the guard on the names is needed: the atom name `A<U+00A0>B` satisfies `XyzOk`; `write_xyz_trajectory` writes it,
+    `line.split()` of the real reader cuts it in two and `float('B')` raises ValueError (the ASCII reader of
+    `Model/Codec.lean` returns the configuration) -/
+theorem xyz_roundtrip_nonascii_space_name_counterexample :
+    ∃ (c : Conf) (t : Text), XyzOk c ∧ c.names = [['A', '\u00a0', 'B']] ∧ writeConf c = .ok t ∧
+      readConfigurationU t = .error .value ∧ readConfiguration t = .ok c := by
+  refine ⟨⟨none, [⟨⟨false, 1000000000⟩, ⟨false, 2000000000⟩, ⟨false, 3000000000⟩⟩], [⟨⟨false, 0⟩, ⟨true, 0⟩, ⟨false, 5⟩⟩],
+    [['A', '\u00a0', 'B']]⟩, _, ?_, rfl, rfl, by decide +kernel, by decide +kernel⟩
+  refine ⟨by decide, by decide, by decide, ?_⟩
+  intro nm h
+  simp only [List.mem_singleton] at h
+  subst h
+  exact ⟨by decide, by intro c hc; revert c; decide⟩
 
 theorem xyz_write_ok (c : Conf) (h : XyzOk c) :
     writeXyz (some c.names) c.pos c.vel c.box none = .ok (unlines (frameLines c)) :=
   Infretis.Codec.xyz_write_ok c h
 
-example : XyzOk exConf := Infretis.Codec.exConf_ok
+example : XyzOk exConf ∧ ∀ nm ∈ exConf.names, Plain nm :=
+  ⟨Infretis.Codec.exConf_ok, by intro nm hn c hc; revert c; revert nm; decide +kernel⟩
 
 /-- zero atoms: the frame is written but `convert_snapshot` raises KeyError('atomname') -/
 theorem xyz_roundtrip_zero_atoms_counterexample :
@@ -853,32 +997,51 @@ theorem xyz_roundtrip_zero_atoms_counterexample :
 
 /-- **extract_frame_k (xyz).**  Frame `k` of a trajectory of any number of frames is written
     byte for byte as frame `k` alone would be; beyond the end nothing is written. -/
-theorem extract_frame_k (cs : List Conf) (h : ∀ c ∈ cs, XyzOk c) (t : Text)
+theorem extract_frame_k (cs : List Conf) (h : ∀ c ∈ cs, XyzOk c) (hn : ∀ c ∈ cs, ∀ nm ∈ c.names, Plain nm) (t : Text)
     (ht : writeTraj cs = .ok t) (k : Nat) :
-    (∀ hk : k < cs.length, ∃ o, writeConf cs[k] = .ok o ∧ extractFrame k t = .ok (some o)) ∧
-    (cs.length ≤ k → extractFrame k t = .ok none) :=
-  ⟨fun hk => Infretis.Codec.extract_frame_k cs h t ht k hk,
-   fun hk => Infretis.Codec.extract_frame_beyond cs h t ht k hk⟩
+    (∀ hk : k < cs.length, ∃ o, writeConf cs[k] = .ok o ∧ extractFrameU k t = .ok (some o)) ∧
+    (cs.length ≤ k → extractFrameU k t = .ok none) :=
+  Infretis.CodecUni.extract_frame_k_uni cs h hn t ht k
+/- OLD STATEMENT (ASCII reader `extractFrame`, without `hn`): kept as `Infretis.Codec.extract_frame_k` /
+   `extract_frame_beyond` in Lemmas/CodecFixed.lean. -/
 
-example : ∀ c ∈ [exConf, exConf2, exConf], XyzOk c := Infretis.Codec.exTraj_ok
+example : (∀ c ∈ [exConf, exConf2, exConf], XyzOk c) ∧ ∀ c ∈ [exConf, exConf2, exConf], ∀ nm ∈ c.names, Plain nm :=
+  ⟨Infretis.Codec.exTraj_ok, by intro c hc nm hn x hx; revert x; revert nm; revert c; decide +kernel⟩
 
 /-- **reverse_only_negates_vel (xyz).**  The reversed file is exactly the file of the same
     configuration with every velocity component sign-flipped (box, positions, names untouched);
     reversing twice restores the original bytes. -/
-theorem xyz_reverse_only_negates_vel (c : Conf) (h : XyzOk c) (t : Text) (hw : writeConf c = .ok t) :
-    (∃ t', reverseXyz t = .ok t' ∧ writeConf (revConf c) = .ok t' ∧
-      readConfiguration t' = .ok (revConf c)) ∧
-    (∃ t', reverseXyz t = .ok t' ∧ reverseXyz t' = .ok t) :=
-  ⟨Infretis.Codec.xyz_reverse_only_negates_vel c h t hw, Infretis.Codec.xyz_reverse_twice c h t hw⟩
+theorem xyz_reverse_only_negates_vel (c : Conf) (h : XyzOk c) (hn : ∀ nm ∈ c.names, Plain nm) (t : Text)
+    (hw : writeConf c = .ok t) :
+    (∃ t', reverseXyzU t = .ok t' ∧ writeConf (revConf c) = .ok t' ∧
+      readConfigurationU t' = .ok (revConf c)) ∧
+    (∃ t', reverseXyzU t = .ok t' ∧ reverseXyzU t' = .ok t) :=
+  Infretis.CodecUni.xyz_reverse_only_negates_vel_uni c h hn t hw
+/- OLD STATEMENT (ASCII reader, without `hn`): `Infretis.Codec.xyz_reverse_only_negates_vel` / `xyz_reverse_twice`. -/
 
 /-- **reverse_only_negates_vel (.g96)**, also requiring that the negated velocities fit -/
 theorem g96_reverse_only_negates_vel (raw : G96Raw) (xyz vel : List V3) (box : List Dec)
-    (h : G96Ok raw xyz vel box) (hn : ∀ v ∈ vel, Fit3 v.negate) (t : Text)
+    (h : G96Ok raw xyz vel box) (hp : G96Plain raw) (hn : ∀ v ∈ vel, Fit3 v.negate) (t : Text)
     (hw : writeG96 raw xyz (some vel) (some box) = .ok t) :
-    ∃ t', reverseG96 t = .ok t' ∧
-      readG96 t' = .ok ⟨rawAfter raw box, xyz, vel.map V3.negate, some box⟩ ∧
-      reverseG96 t' = .ok t :=
-  Infretis.Codec.g96_reverse_only_negates_vel raw xyz vel box h hn t hw
+    ∃ t', reverseG96U t = .ok t' ∧
+      readG96U t' = .ok ⟨rawAfter raw box, xyz, vel.map V3.negate, some box⟩ ∧
+      reverseG96U t' = .ok t :=
+  Infretis.CodecUni.g96_reverse_only_negates_vel_uni raw xyz vel box h hp hn t hw
+/- OLD STATEMENT (ASCII reader, without `G96Plain`): `Infretis.Codec.g96_reverse_only_negates_vel`. -/
+
+/-- **the complete readers ARE the ASCII readers on texts without non-ASCII white space** (so every statement of
+    `Lemmas/CodecFixed.lean` about the ASCII model is a statement about the code on such texts): xyz for every text,
+    .g96 for every list of lines -/
+theorem readers_agree_on_plain_text (t : Text) (ls : List Line) (ht : Plain t) (hl : ∀ l ∈ ls, Plain l) :
+    readXyzFramesU t = readXyzFrames t ∧ readConfigurationU t = readConfiguration t ∧
+    (∀ k, extractFrameU k t = extractFrame k t) ∧ reverseXyzU t = reverseXyz t ∧
+    readG96LinesU ls = readG96Lines ls := by
+  have e := normT_plain ht
+  exact ⟨by rw [readXyzFramesU, e], by rw [readConfigurationU, e], fun k => by rw [extractFrameU, e],
+         by rw [reverseXyzU, e], readG96LinesU_plain ls hl⟩
+
+example : Plain "2\n# Box: 1.0\nAr 1.0 2.0 3.0\n".toList ∧ ¬ Plain "A\u00a0B".toList :=
+  ⟨by intro c hc; revert c; decide +kernel, fun h => absurd (h '\u00a0' (by decide)) (by decide)⟩
 
 end Codec
 
